@@ -200,6 +200,42 @@ impl<'a> TokenBasedLuaGenerator<'a> {
                 self.write_symbol(":");
             }
             self.write_identifier(method);
+
+            if call.has_method_type_instantiation() {
+                let types: Vec<_> = call.get_method_type_instantiation().collect();
+                let generated_tokens;
+                let instantiation_tokens =
+                    if let Some(tokens) = tokens.type_instantiation_tokens.as_ref() {
+                        tokens
+                    } else {
+                        generated_tokens = TypeInstantiationTokens {
+                            first_opening_list: Token::from_content("<"),
+                            second_opening_list: Token::from_content("<"),
+                            first_closing_list: Token::from_content(">"),
+                            second_closing_list: Token::from_content(">"),
+                            commas: intersect_with_token(comma_token(), types.len()),
+                        };
+                        &generated_tokens
+                    };
+
+                self.write_token(&instantiation_tokens.first_opening_list);
+                self.write_token(&instantiation_tokens.second_opening_list);
+
+                let last_index = types.len().saturating_sub(1);
+                for (i, r#type) in types.into_iter().enumerate() {
+                    self.write_type(r#type);
+                    if i < last_index {
+                        if let Some(comma) = instantiation_tokens.commas.get(i) {
+                            self.write_token(comma);
+                        } else {
+                            self.write_symbol(",");
+                        }
+                    }
+                }
+
+                self.write_token(&instantiation_tokens.first_closing_list);
+                self.write_token(&instantiation_tokens.second_closing_list);
+            }
         }
         self.write_arguments(call.get_arguments());
     }
